@@ -655,6 +655,7 @@ func (lb *LoadBalancer) handleRequest(w http.ResponseWriter, r *http.Request, st
 	if backend == nil {
 		logging.WithContext(r.Context()).Warn().Str("path", r.URL.Path).Msg("no healthy backend available")
 		http.Error(w, "No healthy backend servers available", http.StatusServiceUnavailable)
+		lb.metricsCollector.RecordResponse(false, time.Since(startTime))
 		return nil
 	}
 
@@ -689,12 +690,24 @@ func (lb *LoadBalancer) proxyRequest(backend *Backend, w http.ResponseWriter, r 
 		statusCode:     http.StatusOK, // Default status code
 	}
 
+	// Decrement the connection count when done. This is deferred because ReverseProxy
+	// aborts a response that fails mid-body with panic(http.ErrAbortHandler): without the
+	// defer the gauge would stay incremented forever and the request would be counted
+	// in total_requests but in none of successful/failed.
+	completed := false
+	defer func() {
+		backend.DecrementConnections()
+		lb.metricsCollector.UpdateBackendConnections(backend.Name, backend.GetActiveConnections())
+		if !completed {
+			responseTime := time.Since(startTime)
+			lb.metricsCollector.RecordResponse(false, responseTime)
+			lb.metricsCollector.RecordBackendRequest(backend.Name, false, responseTime)
+		}
+	}()
+
 	// Forward the request to the selected backend
 	backend.ReverseProxy.ServeHTTP(rw, r)
-
-	// Decrement the connection count when done
-	backend.DecrementConnections()
-	lb.metricsCollector.UpdateBackendConnections(backend.Name, backend.GetActiveConnections())
+	completed = true
 
 	// Record metrics and handle passive health checks
 	lb.recordRequestMetrics(backend, rw.statusCode, startTime, r)
